@@ -34,9 +34,11 @@
  * name must be a C string terminated inside the object it points into (and shorter than XCM_ATTR_NAME_MAX);
  * at most `capacity` bytes of value are written; the ghosts record what the in-process call reported. */
 int xcm_attr_get(struct xcm_socket *s, const char *name, enum xcm_attr_type *type, void *value, size_t capacity)
+__CPROVER_requires(XV_CTL_Z_LO)
+__CPROVER_requires(XV_CTL_Z_HI)
 __CPROVER_requires(XV_CSTR64(name))
 __CPROVER_requires(capacity <= 0x7fffffffUL && __CPROVER_w_ok(type, sizeof(*type)) && __CPROVER_w_ok(value, capacity))
-__CPROVER_assigns(xv_errno, *type, __CPROVER_object_upto(value, capacity), xv_ctl_get_rv, xv_ctl_get_errno, xv_ctl_get_type, xv_ctl_get_j, xv_ctl_get_calls)
+__CPROVER_assigns(xv_errno, *type, __CPROVER_object_upto(value, capacity + (size_t)xv_ctl_z), xv_ctl_get_rv, xv_ctl_get_errno, xv_ctl_get_type, xv_ctl_get_j, xv_ctl_get_calls)
 __CPROVER_ensures(__CPROVER_return_value >= -1 && (__CPROVER_return_value < 0 || (size_t)__CPROVER_return_value <= capacity))
 __CPROVER_ensures(__CPROVER_return_value == xv_ctl_get_rv && xv_ctl_get_calls == __CPROVER_old(xv_ctl_get_calls) + 1)
 __CPROVER_ensures(__CPROVER_return_value < 0 ==> (xv_errno > 0 && xv_errno == xv_ctl_get_errno))
@@ -47,7 +49,9 @@ __CPROVER_ensures(__CPROVER_return_value >= 0 ==> ((int)*type == xv_ctl_get_type
 /* ------------------------------------------------------------------ process_get_attr */
 #define PGA_CFM(r) ((r)->get_attr_cfm.attr)
 static void process_get_attr(struct xcm_socket *socket, struct ctl_proto_get_attr_req *req, struct ctl_proto_msg *response)
-__CPROVER_requires(__CPROVER_is_fresh(socket, sizeof(*socket)) && __CPROVER_is_fresh(req, sizeof(*req)) && __CPROVER_is_fresh(response, sizeof(*response)))
+__CPROVER_requires(XV_CTL_Z_LO)
+__CPROVER_requires(XV_CTL_Z_HI)
+__CPROVER_requires(__CPROVER_is_fresh(socket, sizeof(*socket)) && __CPROVER_is_fresh(req, sizeof(*req)) && __CPROVER_is_fresh(response, XV_CTL_SIZEOF(*response)))
 __CPROVER_requires(XV_CTL_CNT_OK(xv_ctl_get_calls))
 __CPROVER_assigns(xv_errno, xv_ctl_get_rv, xv_ctl_get_errno, xv_ctl_get_type, xv_ctl_get_j, xv_ctl_get_calls)
 __CPROVER_assigns(response->type, response->get_attr_rej.rej_errno, PGA_CFM(response).value_type, PGA_CFM(response).value_len, \
@@ -78,7 +82,9 @@ size_t xv_ctl_g_len0;      /* ghost constant: attrs_len on entry */
 size_t xv_ctl_g_namelen;   /* ghost constant: strlen(attr_name)  */
 size_t xv_ctl_g_len;       /* ghost constant: len                */
 static void add_attr(const char *attr_name, enum xcm_attr_type type, void *value, size_t len, void *data)
-__CPROVER_requires(__CPROVER_is_fresh(data, sizeof(struct ctl_proto_get_all_attr_cfm)))
+__CPROVER_requires(XV_CTL_Z_LO)
+__CPROVER_requires(XV_CTL_Z_HI)
+__CPROVER_requires(__CPROVER_is_fresh(data, XV_CTL_SIZEOF(struct ctl_proto_get_all_attr_cfm)))
 __CPROVER_requires(AA_CFM(data)->attrs_len <= CTL_PROTO_MAX_ATTRS && AA_CFM(data)->attrs_len == xv_ctl_g_len0)
 __CPROVER_requires(xv_ctl_g_namelen < XV_CTL_NAME_OBJ && __CPROVER_is_fresh(attr_name, xv_ctl_g_namelen + 1))
 __CPROVER_requires(attr_name[xv_ctl_g_namelen] == 0 && XV_NONUL96(attr_name, xv_ctl_g_namelen))
@@ -90,7 +96,7 @@ __CPROVER_ensures(AA_CFM(data)->attrs_len <= CTL_PROTO_MAX_ATTRS && \
                   AA_CFM(data)->attrs_len == xv_ctl_g_len0 + (AA_ADDS(attr_name, xv_ctl_g_namelen, len) ? 1 : 0))
 /* PO[C14] add_attr.entry_equals_in_process */
 __CPROVER_ensures(AA_ADDS(attr_name, xv_ctl_g_namelen, len) ==> (AA_ENTRY(data).value_type == type && AA_ENTRY(data).value_len == len && \
-        (xv_ctl_j < len ==> AA_ENTRY(data).any_value[xv_ctl_j] == ((const uint8_t *)value)[xv_ctl_j]) && \
+        (xv_mc < len ==> AA_ENTRY(data).any_value[xv_mc] == ((const uint8_t *)value)[xv_mc]) && \
         (xv_ctl_j <= xv_ctl_g_namelen ==> AA_ENTRY(data).name[xv_ctl_j] == attr_name[xv_ctl_j])))
 ;
 
